@@ -1,6 +1,7 @@
 use crate::engine::Ctx;
 
 pub mod c01;
+pub mod c02;
 pub mod c03;
 pub mod c04;
 pub mod c06;
@@ -12,6 +13,7 @@ pub mod c12;
 
 pub const TABLE: &[(&str, fn(&mut Ctx))] = &[
 	("C01", c01::run),
+	("C02", c02::run),
 	("C03", c03::run),
 	("C04", c04::run),
 	("C06", c06::run),
